@@ -280,7 +280,11 @@ def run_case(ctx, i, rng):
                     # `use m, local => remote` without ONLY: resolved when the module is used directly by the scope; the alias is not exported
                     # further, and the remote name is not hidden
                     wren = whole_renames(sc)
-                    if outcome == "null" and (occ.name.lower() in {l.lower() for l, r_, u_ in wren}
+                    base_ = [o for o in w.occs if o.file == occ.file and o.line == occ.line and o.col < occ.col and o.ent.tdef is not None] if occ.ctx in ("comp-ref", "bind-ref") else []
+                    if outcome == "null" and any(o.name.lower() in {l.lower() for l, r_, u_ in wren} for o in base_):
+                        # member of an object that is itself only visible under a whole-module rename alias
+                        key = "use-tree:rename-without-only:alias-not-visible-through-other-modules"
+                    elif outcome == "null" and (occ.name.lower() in {l.lower() for l, r_, u_ in wren}
                                               or any(M.exports(u_.mod).get(r_) is occ.ent and occ.ent.module() is not site_module(sc) for l, r_, u_ in wren if sc.chain()[-1] is not u_.mod)
                                               and occ.name.lower() != occ.ent.name.lower()):
                         key = "use-tree:rename-without-only:alias-not-visible-through-other-modules"
@@ -288,6 +292,10 @@ def run_case(ctx, i, rng):
                         g = entity_at(w, got)
                         if g is not None and any(r_.lower() == occ.name.lower() and M.exports(u_.mod).get(r_) is g for l, r_, u_ in wren):
                             key = "use-tree:rename-without-only:remote-name-not-hidden"
+                        elif wren and occ.name.lower() != occ.ent.name.lower():
+                            # an alias (of any kind) resolved through a USE tree that also holds whole-module renames: the rename maps of all
+                            # views of a module are merged, so the alias can be mapped to the remote name of another rename
+                            key = "use-tree:rename-without-only:rename-maps-merged-across-views"
                 if outcome in ("wrong-file", "wrong-line", "null") and key.startswith("definition:") and sc is not None \
                         and any(v == "private" for m in use_closure(sc) for v in m.reexport_vis.values()):
                     # some module on the USE closure of the site hides a use-associated name with a PRIVATE statement, which the USE tree ignores
